@@ -76,9 +76,9 @@ type syncCase struct {
 	Arr  string
 	Args []string
 	Src  tm.Tree
-	Dst  tm.Tree  // prior destination state
-	Form string   // "contents" (src/), "dir" (src), "file:<rel>"
-	Src2 tm.Tree  // optional second source root (form "two": src/ src2/)
+	Dst  tm.Tree // prior destination state
+	Form string  // "contents" (src/), "dir" (src), "file:<rel>"
+	Src2 tm.Tree // optional second source root (form "two": src/ src2/)
 	Rec  bool
 	Tag  string // free-form tag that becomes a failure feature
 }
@@ -166,7 +166,7 @@ func has(args []string, short byte, long string) bool {
 // effective option view with -a expansion.
 type eff struct {
 	r, l, p, t, g, o, D, c, I, n, del bool
-	devices, specials            bool
+	devices, specials                 bool
 }
 
 func effective(args []string) eff {
